@@ -487,7 +487,9 @@ func runC03(r *Run) {
 			return ok && strings.HasSuffix(calleeName(&c.Call), ".RemoveEscapeChar")
 		}
 		r.P.AllFuncs("", func(f *ssa.Function) {
-			for _, c := range callsMatching(f, false, func(s string) bool { return strings.HasSuffix(s, "fiber/v3.parseRoute") || strings.HasSuffix(s, "routeParser).parseRoute") }) {
+			for _, c := range callsMatching(f, false, func(s string) bool {
+				return strings.HasSuffix(s, "fiber/v3.parseRoute") || strings.HasSuffix(s, "routeParser).parseRoute")
+			}) {
 				args := c.Common.Args
 				if len(args) == 0 {
 					continue
